@@ -271,7 +271,17 @@ def rule_dimguard(ctx, py):
             if isinstance(node, ast.Assign) and pyfe.src(node.targets[0]) == "su_dst" and pyfe.src(node.value) != "0":
                 recs.append((node, facts))
         pya.must_facts(f, on_stmt=on)
-        ctx.need(len(recs) >= 4, R, "%s: destination assignments not found" % q)
+        ctx.need(len(recs) >= 3, R, "%s: destination assignments not found" % q)
+        # the destination system is a function of the target argument alone, whatever form the target takes
+        tgt = [p_ for p_ in pyfe.params(f) if p_ != v][0]
+        for node in ast.walk(f):
+            if isinstance(node, ast.Assign) and len(node.targets) == 1 and pyfe.src(node.targets[0]) in ("su_dst", tgt) and \
+                    pyfe.src(node.value) != "0":
+                nm = {x.id for x in ast.walk(node.value) if isinstance(x, ast.Name)}
+                ctx.check(bool(nm & {tgt, "su_dst"}) and v not in nm, R, node, q, pyfe.src(node)[:70],
+                          "derived from the target argument `%s`" % tgt, "the destination of the conversion is taken from `%s`, not "
+                          "from the target `%s`: the quantity is 'converted' to its own units (factor 1, any dimension accepted)"
+                          % (sorted(nm - {tgt, "su_dst"})[:1] or ["?"], tgt))
         for node, facts in recs:
             val = pyfe.src(node.value)
             if val.endswith(".sys") and not val.startswith("su_dst"):
@@ -291,7 +301,7 @@ def rule_dimguard(ctx, py):
                "Units(su_dst,%s)" % selfdim in src)
         ctx.check(okk, R, rets[-1], q, pyfe.src(rets[-1])[:100], "number converted source -> destination with the source "
                   "dimension, re-wrapped (destination system, source dimension)", "conversion arguments or re-wrap wrong")
-    ctx.floor(R, 7)
+    ctx.floor(R, 12)
 
 
 def rule_eq3(ctx, py):
@@ -402,6 +412,11 @@ def run(ctx):
     rule_dimguard(ctx, py)
     rule_eq3(ctx, py)
     rule_convert_args(ctx, py)
+    # shared clause: a unit string's factors of one base kind add their exponents -- the litre and molar families get their SI
+    # meaning (dm3, mol.dm-3) only through that sum
+    from ..core import borrow
+    from . import c18
+    borrow(ctx, "C06", c18.rule_expsum, py)
     from .. import lints
     lints.run(ctx, "C06", ctx.py, ["units"])
     ctx.assume("the 1e-12 composition bound is not measured; it follows from the product-of-ratios form (C06.KEYS)")
